@@ -53,7 +53,7 @@ def prepare(chk, props_module, need_hook=True):
         ctx.locks = None
     ctx.model = chk.lean('XvcPipeline', props_module, exe='schedmodel',
                          extra_modules=['XvcPipeline.Sched', 'XvcPipeline.Graph', 'XvcPipeline.Inv', 'XvcPipeline.Term',
-                                        'XvcPipeline.Topo', 'XvcPipeline.Progress', 'XvcPipeline.Relay', 'XvcPipeline.LockOrder'])
+                                        'XvcPipeline.Topo', 'XvcPipeline.Progress', 'XvcPipeline.Relay', 'XvcPipeline.LockOrder', 'XvcPipeline.PmpLock'])
     if not (ctx.model and os.path.exists(ctx.model)):
         ctx.model = None
         chk.notes.append('model driver did not build; hook traces cannot be validated')
@@ -79,7 +79,8 @@ def prepare(chk, props_module, need_hook=True):
     ctx.lock = threading.Lock()
     ctx.counter = itertools.count()
     chk.trusted_base += [
-        'lock-order extractor lib/lock_extract.py (lexical rules R1-R5 in its header; limits: trait objects, guards stored in structs or returned, other crates)',
+        'lock-order extractor lib/lock_extract.py (lexical rules R1-R5 in its header; limits: trait objects, guards stored in structs or returned, other crates '
+        'except the path metadata provider core/src/util/pmp.rs, which `analyse_pmp` covers with rules P1-P3: calls resolved through `self` only)',
         'translator lib/sched_translate.py (anchored text extraction of the state machine, the run-condition table and the events returned by each handler)',
         'lib/sched_common.py (pipeline generators, journal oracle, trace collection), harness/src/bin/sched_step.rs (step command writing the journal)',
         'trace hooks under cargo feature `verif` of xvc-pipeline (logging and sleeps only; patches/hook-pipeline.patch)',
@@ -191,6 +192,136 @@ def refresh_changing_deps(root, spec, r):
         open(os.path.join(root, f'glb_s{i}_{r % 2}.glb'), 'w').write(f'{r}\n')
 
 
+# ---- dependency paths SHARED by several steps (spec['shared'], round 5).  The path metadata provider of xvc-core caches
+# ---- per path, so what one step thread learned about a path (e.g. "missing") is what the next lookup of any thread starts from.
+
+SHARED_KINDS = ('file', 'regex', 'lines', 'glob')
+
+
+def shared_target(k, kind):
+    """what the dependency option names: a file under shr/ (`--file`), a file in the repository root (`--regex`, `--lines`:
+    their option parsers do not accept a `/`), or a pattern over the directory shr/d<k>/ (`--glob`)"""
+    if kind == 'glob':
+        return f'shr/d{k}/*.txt'
+    return f'shr/f{k}.txt' if kind == 'file' else f'shr_f{k}.txt'
+
+
+def mk_shared(k, kind, users, exists=False, creator=None, output_of=None, created=False):
+    """one shared path.  users: the steps that declare the dependency; exists: the file (for glob: the directory with two
+    members) is there before the run; creator: a step whose COMMAND creates the file (not declared as its output);
+    output_of: a step that DECLARES the path as its output (implicit edges user -> producer), created: its command writes it."""
+    assert kind in SHARED_KINDS and users
+    return {'k': k, 'kind': kind, 'path': shared_target(k, kind), 'users': sorted(set(users)), 'exists': bool(exists),
+            'creator': creator, 'output_of': (output_of if kind != 'glob' else None), 'created': bool(created)}
+
+
+def add_shared(spec, entries):
+    """attach shared paths to a spec; declared outputs add the implicit edges user -> producer (kind 'shared': no CLI option
+    of its own, the edge follows from the path) so that every consumer of spec['edges'] sees them"""
+    spec = json.loads(json.dumps(spec))
+    spec['shared'] = entries
+    for e in entries:
+        if e.get('output_of') is not None:
+            for u in e['users']:
+                if u != e['output_of'] and [u, e['output_of'], 'shared'] not in spec['edges']:
+                    spec['edges'].append([u, e['output_of'], 'shared'])
+    return spec
+
+
+def shared_dep_args(spec, i):
+    args = []
+    for e in spec.get('shared', []):
+        if i in e['users']:
+            if e['kind'] == 'file':
+                args += ['--file', e['path']]
+            elif e['kind'] == 'regex':
+                args += ['--regex', e['path'] + ':/^[a-z]/']
+            elif e['kind'] == 'lines':
+                args += ['--lines', e['path'] + '::1-2']
+            else:
+                args += ['--glob', e['path']]
+    return args
+
+
+def shared_write_files(root, spec):
+    os.makedirs(os.path.join(root, 'shr'), exist_ok=True)
+    for e in spec.get('shared', []):
+        if not e['exists']:
+            continue
+        if e['kind'] == 'glob':
+            d = os.path.join(root, os.path.dirname(e['path']))
+            os.makedirs(d, exist_ok=True)
+            for m in ('a', 'b'):
+                open(os.path.join(d, m + '.txt'), 'w').write(f'member {m}\n')
+        else:
+            open(os.path.join(root, e['path']), 'w').write('alpha\nbeta\ngamma\n')
+
+
+def shared_touches(spec, i):
+    """paths the command of step i creates: as the creator of a shared file, or as the producer that writes its declared output"""
+    out = []
+    for e in spec.get('shared', []):
+        pth = e['path'] if e['kind'] != 'glob' else os.path.dirname(e['path']) + '/c.txt'
+        if e.get('creator') == i or (e.get('output_of') == i and e.get('created')):
+            out.append(pth)
+    return out
+
+
+def shared_certainly_broken(spec):
+    """steps that cannot end done: they read (file, regex, lines) a path that does not exist and that nothing creates"""
+    out = set()
+    for e in spec.get('shared', []):
+        if e['kind'] != 'glob' and not e['exists'] and e.get('creator') is None and not (e.get('output_of') is not None and e.get('created')):
+            out |= {u for u in e['users'] if spec['whens'][u] != 'never'}
+    return out
+
+
+def shared_driver_lines(spec):
+    L = []
+    for e in spec.get('shared', []):
+        for u in e['users']:
+            if e['kind'] == 'file':
+                L.append(f'dep {u} file {e["path"]}')
+            elif e['kind'] == 'glob':
+                L.append(f'dep {u} glob {e["path"]}')
+            else:
+                L.append(f'dep {u} path {"Regex" if e["kind"] == "regex" else "Lines"} {e["path"]}')
+    for e in spec.get('shared', []):
+        if e.get('output_of') is not None:
+            L.append(f'out {e["output_of"]} {e["path"]}')
+    return L
+
+
+def shared_describe(spec):
+    L = []
+    for e in spec.get('shared', []):
+        state = ('exists' if e['exists'] else 'DOES NOT EXIST') + (' (directory with a.txt, b.txt)' if e['kind'] == 'glob' and e['exists'] else '')
+        if e.get('output_of') is not None:
+            L.append(f'xvc pipeline step output -s s{e["output_of"]} --output-file {e["path"]}   # its command ' +
+                     ('writes it' if e.get('created') else 'does NOT write it'))
+        if e.get('creator') is not None:
+            L.append(f'#   the command of s{e["creator"]} creates {shared_touches(spec, e["creator"])} (not declared as an output)')
+        for u in e['users']:
+            L.append(f'xvc pipeline step dependency -s s{u} ' + ' '.join(shared_dep_args({'shared': [dict(e, users=[u])]}, u)) + f'   # shared path, {state}')
+    return L
+
+
+def shared_drop_step(entries, k, ren):
+    out = []
+    for e in entries:
+        users = [ren[u] for u in e['users'] if u != k]
+        if not users:
+            continue
+        e2 = dict(e, users=users)
+        e2['creator'] = ren[e['creator']] if e.get('creator') not in (None, k) else None
+        if e.get('output_of') == k:
+            e2['output_of'], e2['created'] = None, False
+        elif e.get('output_of') is not None:
+            e2['output_of'] = ren[e['output_of']]
+        out.append(e2)
+    return out
+
+
 def mk_case(spec, pool, behav=None, sched=None, runs=1, missing=(), absent_outputs=False, label='', touch_inputs=False, fault=None):
     n = spec['n']
     behav = behav or [{} for _ in range(n)]
@@ -238,6 +369,8 @@ def build_template(ctx, spec, absent_outputs=False):
             sb.write(nul_path(i), b'first\n' + b'x' * 140000 + b'\nthird\n')
         else:
             sb.write(nul_path(i), b'first\nsecond\0line\nthird\n')
+    if spec.get('shared'):
+        shared_write_files(sb.root, spec)
     refresh_changing_deps(sb.root, {k: v for k, v in spec.items() if k in ('generic', 'textdeps')}, 0)
     log = []
 
@@ -276,10 +409,14 @@ def build_template(ctx, spec, absent_outputs=False):
         if i in spec.get('textdeps', []):
             args += ['--lines', f'lines_s{i}.txt::1-2', '--regex', f'lines_s{i}.txt:/^a/',
                      '--param', f'params_s{i}.yaml::k', '--glob', f'glb_s{i}_*.glb']
+        args += shared_dep_args(spec, i)
         if args:
             x('step', 'dependency', '-s', f's{i}', *args)
     for j in sorted(need_out):
         x('step', 'output', '-s', f's{j}', '--output-file', out_path(j))
+    for e in spec.get('shared', []):
+        if e.get('output_of') is not None:
+            x('step', 'output', '-s', f's{e["output_of"]}', '--output-file', e['path'])
     with ctx.lock:
         ctx.templates[key] = (sb.base, log)
     return sb.base, log
@@ -523,6 +660,7 @@ def run_case(ctx, case, hook=False, timeout=20, keep=False):
             lines.append(f'closefds {b["closefds"]}')
         if i in need_out:
             lines.append(f'touch {out_path(i)}')
+        lines += [f'touch {p}' for p in shared_touches(spec, i)]
         open(os.path.join(root, '.ctl', f's{i}'), 'w').write('\n'.join(lines) + '\n')
     for i in case.get('missing', []):
         try:
@@ -659,6 +797,7 @@ def oracle(case, o, first_run=True):
             failed.add(s)
         if s in spec.get('unspawnable', []) and whens[s] != 'never':
             failed.add(s)            # its command cannot be started: the step cannot end done
+    failed |= shared_certainly_broken(spec)      # reads a shared path that does not exist and that nothing creates
     # failure propagates through steps that are neither always nor never
     broken = set(failed)
     changed = True
@@ -749,6 +888,8 @@ def driver_input(case, trace, cid, header=None):
             L.append(f'dep {a} step {j}')
         elif k == 'file':
             L.append(f'dep {a} file {out_path(j)}')
+        elif k == 'shared':
+            continue                         # follows from the shared path and the declared output below
         else:
             L.append(f'dep {a} glob out/s{j}/*.txt')
     for i in range(spec['n']):
@@ -766,6 +907,7 @@ def driver_input(case, trace, cid, header=None):
               f'dep {i} glob glb_s{i}_*.glb']
     for j in sorted({j for (_, j, k) in spec['edges'] if k in ('file', 'glob', 'globi')}):
         L.append(f'out {j} {out_path(j)}')
+    L += shared_driver_lines(spec)
     L.append('trace-begin')
     L += trace
     L.append('trace-end')
@@ -800,6 +942,8 @@ def signature(case, f):
     elif f['clause'] == 'terminates':
         if any(b['err'] > PIPE_BUF_LINUX for b in case['behav']):
             sig['kind'] = 'stderr-over-pipe-buffer'
+        elif any(not e['exists'] for e in spec.get('shared', [])):
+            sig['kind'] = 'missing-path-shared-by-steps'
         elif case.get('missing'):
             sig['kind'] = 'missing-dependency-file'
         elif spec.get('unspawnable'):
@@ -860,6 +1004,10 @@ def drop_step(case, k):
         v = {str(ren[int(i)]): sz for i, sz in spec['bigfiles'].items() if int(i) != k}
         if v:
             nspec['bigfiles'] = v
+    if spec.get('shared'):
+        v = shared_drop_step(spec['shared'], k, ren)
+        if v:
+            nspec['shared'] = v
     c = dict(case)
     c['spec'] = nspec
     c['behav'] = [b for i, b in enumerate(case['behav']) if i != k]
@@ -991,6 +1139,9 @@ def run_family(ctx, stream, cases, own, hook=False, timeout=20, workers=8, valid
                                     else ('exit-nonzero' if b['rc'] else 'exit-0')))
         if case.get('fault'):
             chk.count('fault:' + case['fault'])
+        for e in case['spec'].get('shared', []):
+            chk.count(f'shared:{e["kind"]}:{"exists" if e["exists"] else "missing"}:users={len(e["users"])}' + (':creator' if e.get('creator') is not None else '') +
+                      ((':declared-output-' + ('written' if e.get('created') else 'not-written')) if e.get('output_of') is not None else ''))
         for key in ('unspawnable', 'generic', 'textdeps', 'missing'):
             k = len(case['spec'].get(key, [])) if key != 'missing' else len(case.get('missing', []))
             if k:
@@ -1026,7 +1177,7 @@ def run_family(ctx, stream, cases, own, hook=False, timeout=20, workers=8, valid
             if a is None:
                 continue
             st['traces_validated'] += 1
-            if a.startswith('valid') and not case.get('missing') and not case['spec'].get('unspawnable') and _failed_threads(o['trace']):
+            if a.startswith('valid') and not case.get('missing') and not case['spec'].get('unspawnable') and not case['spec'].get('shared') and _failed_threads(o['trace']):
                 # a thread failure nobody asked for.  It is a run of the model (`die` may fire any time), so it only counts
                 # when it is reproducible: a spawn that fails for lack of resources on the loaded machine is not
                 who = _failed_threads(o['trace'])
@@ -1108,6 +1259,8 @@ def describe(case):
     for (a, j, k) in spec['edges']:
         if k == 'step':
             L.append(f'xvc pipeline step dependency -s s{a} --step s{j}')
+        elif k == 'shared':
+            continue
         elif k == 'file':
             L.append(f'xvc pipeline step output -s s{j} --output-file {out_path(j)}; xvc pipeline step dependency -s s{a} --file {out_path(j)}')
         else:
@@ -1116,6 +1269,7 @@ def describe(case):
     for i in range(spec['n']):
         if spec['inputs'][i]:
             L.append(f'xvc pipeline step dependency -s s{i} --file {in_path(i)}' + ('   # file deleted before the run' if i in case.get('missing', []) else ''))
+    L += shared_describe(spec)
     for i in spec.get('generic', []):
         L.append(f"xvc pipeline step dependency -s s{i} --generic 'cat {gen_path(i)}'   # {gen_path(i)} rewritten before every run")
     for i, sizes in spec.get('bigfiles', {}).items():
